@@ -607,10 +607,9 @@ def resolve_strategy_inline_recurse(path, base, decisions):
                 }
 
             elif k == 'id':
-                cell[k] = {
-                    "local_id": lcell[k],
-                    "remote_id": rcell[k],
-                }
+                # The id must stay a string for the cell to be valid,
+                # the remote id is still available in the decision
+                cell[k] = lcell[k]
 
             elif k == 'execution_count':
                 cell[k] = None  # Clear
